@@ -35,6 +35,7 @@ def check(ck):
     r06_4(ck)
     r06_5(ck)
     r06_6(ck)
+    r06_7(ck)
 
 
 # ------------------------------------------------------------- case tables
@@ -560,3 +561,49 @@ def r06_6(ck):
             v.rule = 'R06.6'
     for r in ('R07.1', 'R07.2', 'R05.3'):
         ck.rules.pop(r, None)
+
+
+def r06_7(ck, rule='R06.7'):
+    ck.rule(rule, 'the inverted update owns its dictionaries: a dict-valued '
+            'port update is merged into the inverse only as a structural '
+            'copy, because later merges (second port wired to the same '
+            'branch) write into the dictionaries already placed there - '
+            'which must not be the ones the process returned')
+    f = ck.fn('inverse_topology', 'library.topology')
+    upd = A.params_of(f.node)[1]
+    n = 0
+    for c in A.calls_in(f.node, ('deep_merge', 'deep_merge_multi_update',
+                                 'deep_merge_check'), nested=True):
+        x = A.arg_of(c, 1)
+        if x is None:
+            continue
+        st = c
+        while not isinstance(st, ast.stmt):
+            st = st._parent
+        # does the merged value come out of the update?
+        from_update = derives(f.node, x, lambda y: A.is_name(y, upd), at=st)
+        if not from_update:
+            continue
+        n += 1
+        fresh = False
+        if isinstance(x, ast.Dict):
+            # {key: scalar}: a new dictionary around a non-dict value
+            fresh = True
+        elif isinstance(x, ast.Call) and A.call_name(x) in (
+                'deep_copy_internal', 'deepcopy'):
+            fresh = True
+        elif isinstance(x, ast.Name):
+            ds = reaching(f.node).at(st, x.id)
+            fresh = bool(ds) and all(
+                isinstance(d.value, ast.Call) and A.call_name(d.value) in (
+                    'deep_copy_internal', 'deepcopy') for d in ds)
+        ck.require(fresh, rule, f, c,
+                   'the dictionary merged into the inverse is a copy of the '
+                   "process's update, not the update itself",
+                   'a dictionary taken from the update returned by the '
+                   'process (%s) is merged into the inverted update by '
+                   'reference: when a second port is wired to the same '
+                   'branch the merge writes into the update object of the '
+                   'process (a process that reuses its update applies the '
+                   'first port again and again)' % A.unparse(x), c)
+    ck.floor(rule, n, 3, 'merges of update dictionaries into the inverse')
